@@ -1,3 +1,5 @@
--- This module serves as the root of the `BtcHd` library.
--- Import modules here that should be built as part of the library.
-import BtcHd.Basic
+-- Root of the library: every model, lemma and property module.
+import BtcHd.Model.Wallet
+import BtcHd.Prims.Sha
+import BtcHd.Prims.Secp256k1
+import BtcHd.Props.C10
